@@ -120,10 +120,17 @@ class History:
         self.time = 0
 
     # ---- helpers ------------------------------------------------------------------
-    def emit(self, kind, payload, **meta):
+    def clock(self):
+        """the 32 bits of a packet's time field: usually a slowly growing pattern, sometimes any float32 there is (NaN, infinities,
+        negative, huge) -- the field is carried along, never interpreted"""
         self.time += self.rng.randint(0, 1000)
+        if self.rng.random() < 0.12:
+            return self.rng.choice([0x7fc00000, 0x7f800000, 0xff800000, 0x80000000, 0x7f7fffff, 0xffffffff, self.rng.getrandbits(32)])
+        return self.time
+
+    def emit(self, kind, payload, **meta):
         meta['kind'] = kind
-        self.packets.append((self.tab[kind], payload, dict(meta, time=self.time)))
+        self.packets.append((self.tab[kind], payload, dict(meta, time=self.clock())))
 
     def default_pose(self, view):
         p = {}
@@ -343,8 +350,7 @@ class History:
                 if t not in MAPPED[self.dialect]:
                     break
             body = bytes(self.rng.getrandbits(8) for _ in range(self.rng.choice([0, 1, 5, 40])))
-            self.time += 1
-            self.packets.append((t, body, {'kind': 'unmapped', 'time': self.time}))
+            self.packets.append((t, body, {'kind': 'unmapped', 'time': self.clock()}))
         elif r < 0.7:
             self.emit('control', struct.pack('<ib', self.rng.randint(-5, 500), self.rng.choice([0, 1])))
         elif r < 0.85 and 'version' in self.tab:
